@@ -441,13 +441,14 @@ class Stream(object):
 
 
 def is_no_body(request, response, no_content_codes=DEFAULT_NO_CONTENT_CODES):
-    '''Return whether a content body is not expected.'''
-    if 'Content-Length' not in response.fields \
-            and 'Transfer-Encoding' not in response.fields \
-            and (
-                response.status_code in no_content_codes
-                or request.method.upper() == 'HEAD'
-            ):
+    '''Return whether a content body is not expected.
+
+    Responses to HEAD requests and 1xx, 204 and 304 responses never have
+    a body even if Content-Length or Transfer-Encoding fields are present
+    (RFC 7230 section 3.3.3).
+    '''
+    if response.status_code in no_content_codes \
+            or request.method.upper() == 'HEAD':
         return True
     else:
         return False
